@@ -400,6 +400,7 @@ package agent
 // ---------------------------------------------------------------- collator: depth discipline and termination (C08, C07)
 
 // remaining(it): number of entries a reflect.MapIter still has to deliver (ghost)
+//@ declare rlen(U) Int
 //@ model remaining Int
 //@ assume func (*reflect.MapIter).Next
 //@   nopanic
@@ -407,7 +408,7 @@ package agent
 //@   ensures old(remaining(this)) >= 0 && (result ==> old(remaining(this)) > 0 && remaining(this) == old(remaining(this)) - 1) && (!result ==> remaining(this) == old(remaining(this)))
 //@ assume func (reflect.Value).MapRange
 //@   nopanic
-//@   ensures fresh(result) && result != nil && remaining(result) >= 0
+//@   ensures fresh(result) && result != nil && remaining(result) == rlen(this) && remaining(result) >= 0
 
 //@ type *collator_
 //@   invariant[C08] 0 <= this.depth_ && this.depth_ <= this.maximum_
@@ -416,7 +417,6 @@ package agent
 // raised; the public methods must restore it), and their mutual recursion is bounded by the variant
 // (maximum_ - depth_, rank of the function, pointer nesting of the first operand).
 //@ declare ptrh(U) Int
-//@ declare rlen(U) Int
 //@ declare rvalid(U) Bool
 //@ declare rnil(U) Bool
 //@ declare rkind(U) Int
@@ -478,8 +478,10 @@ package agent
 //@   modifies this.depth_
 //@   decreases this.maximum_ - this.depth_, 1
 //@   ensures[C08] this.depth_ == old(this.depth_)
+//@   ensures[C08] rlen(first) != rlen(second) ==> !result
+//@   ensures[C08] rlen(first) == 0 && rlen(second) == 0 ==> result
 //@   loop 1:
-//@     invariant this.depth_ == old(this.depth_) && this.depth_ < this.maximum_ && remaining(iterator) >= 0 && iterator != nil
+//@     invariant this.depth_ == old(this.depth_) && this.depth_ < this.maximum_ && remaining(iterator) >= 0 && remaining(iterator) <= rlen(first) && iterator != nil
 //@     decreases remaining(iterator)
 //@ func (*collator_).compareSequences
 //@   props C08
@@ -541,6 +543,8 @@ package agent
 //@ func (*collator_).rankMaps
 //@   props C08 C07
 //@   ensures[C07] result <= 2
+//@   ensures[C07] rlen(first) == 0 ==> result == ite(rlen(second) > 0, 0, 1)
+//@   ensures[C07] rlen(second) == 0 && rlen(first) > 0 ==> result == 2
 //@   modifies this.depth_
 //@   decreases this.maximum_ - this.depth_, 1, ite(rlen(first) > rlen(second), 1, 0)
 //@   ensures[C08] this.depth_ == old(this.depth_)
